@@ -112,24 +112,28 @@ Definition gfx_match (s : list Z) : option gfx_sm :=
     let? r2 := expect 61 r1 in
     let? (idx, r3) := take_digits1 r2 in
     match r3 with
-    | 58 :: pay => if payload_ok pay then Some (mkSm cmd lst idx None pay) else None
-    | 47 :: r4 =>
-      let? (mx, r5) := take_digits1 r4 in
-      let? r6 := expect 44 r5 in
-      let? (w, r7) := take_digits1 r6 in
-      let? r8 := expect 120 r7 in
-      let? (h, r9) := take_digits1 r8 in
-      match r9 with
-      | 58 :: pay => if payload_ok pay then Some (mkSm cmd lst idx (Some (mx, w, h, None)) pay) else None
-      | 44 :: r10 =>
-        let? (x, r11) := take_digits1 r10 in
-        let? r12 := expect 44 r11 in
-        let? (y, r13) := take_digits1 r12 in
-        let? pay := expect 58 r13 in
-        if payload_ok pay then Some (mkSm cmd lst idx (Some (mx, w, h, Some (x, y))) pay) else None
-      | _ => None
-      end
-    | _ => None
+    | [] => None
+    | c3 :: r4 =>
+      if c3 =? 58 then (if payload_ok r4 then Some (mkSm cmd lst idx None r4) else None)
+      else if c3 =? 47 then
+        let? (mx, r5) := take_digits1 r4 in
+        let? r6 := expect 44 r5 in
+        let? (w, r7) := take_digits1 r6 in
+        let? r8 := expect 120 r7 in
+        let? (h, r9) := take_digits1 r8 in
+        match r9 with
+        | [] => None
+        | c9 :: r10 =>
+          if c9 =? 58 then (if payload_ok r10 then Some (mkSm cmd lst idx (Some (mx, w, h, None)) r10) else None)
+          else if c9 =? 44 then
+            let? (x, r11) := take_digits1 r10 in
+            let? r12 := expect 44 r11 in
+            let? (y, r13) := take_digits1 r12 in
+            let? pay := expect 58 r13 in
+            if payload_ok pay then Some (mkSm cmd lst idx (Some (mx, w, h, Some (x, y))) pay) else None
+          else None
+        end
+      else None
     end
   end.
 
